@@ -1,7 +1,9 @@
 #!/usr/bin/env python3
 """Prepare scratch worktrees and prompts for seeding sub-agents.
 
-usage: seed_prompt.py C02 C04 ...
+usage: seed_prompt.py [--round N] C02 C04 ...
+Round 2+ names the mechanism of the earlier seeded change(s) for that property (from seeded/<id>*/meta.json) so that
+the new sub-agent looks elsewhere; output goes to /tmp/seed-<id>-rN, worktree /tmp/wt-<id>-rN.
 For each id: git worktree /tmp/wt-<id> of /repo's HEAD, /tmp/seed-<id>/PROMPT.txt holding only the
 property text and working instructions. The sub-agent is given nothing from /verif.
 """
@@ -27,11 +29,24 @@ Deliverables in {out}:
 
 Verify everything yourself before finishing: apply the patch, build, run the full suite (compare with the pristine result), run the demonstration with and without the patch. When done, leave the worktree with your change reverted (`git checkout -- . && git clean -fd` inside {wt}) and make sure the deliverables are in {out}. Report briefly what you did.'''
 
-for pid in sys.argv[1:]:
+args = sys.argv[1:]
+rnd = 1
+if args and args[0] == '--round':
+    rnd = int(args[1]); args = args[2:]
+import glob
+for pid in args:
     p = props[pid]
-    wt, out = f'/tmp/wt-{pid}', f'/tmp/seed-{pid}'
+    suffix = '' if rnd == 1 else f'-r{rnd}'
+    wt, out = f'/tmp/wt-{pid}{suffix}', f'/tmp/seed-{pid}{suffix}'
     os.makedirs(out, exist_ok=True)
     if not os.path.exists(wt):
         subprocess.check_call(['git', '-C', '/repo', 'worktree', 'add', '-q', '--detach', wt, 'HEAD'])
-    open(f'{out}/PROMPT.txt', 'w').write(tmpl.format(wt=wt, out=out, title=p['title'], statement=p['statement'], quant=p['quantifier']['text']))
+    text = tmpl.format(wt=wt, out=out, title=p['title'], statement=p['statement'], quant=p['quantifier']['text'])
+    if rnd > 1:
+        earlier = []
+        for mp in sorted(glob.glob(f'/verif/seeded/{pid}*/meta.json')):
+            m = json.load(open(mp))
+            earlier.append(f"- in {', '.join(m['files'])}: {m['summary']}")
+        text += ("\n\nOther contributors have already submitted the following change(s) for this property; yours must use a DIFFERENT mechanism, preferably in a different file or a different facet of the statement:\n" + "\n".join(earlier))
+    open(f'{out}/PROMPT.txt', 'w').write(text)
     print(pid, wt, out)
